@@ -39,6 +39,22 @@ pub const KINDS: [ErrorKind; 6] = [
     ErrorKind::Interrupted,
 ];
 
+/// the injected error in one of four shapes, chosen by the call counter: with a short payload; "simple" (kind
+/// only, no message, no OS code); with a long message of multi-byte characters at every alignment; with a
+/// long ASCII message
+fn injected(kind: ErrorKind, calls: u64, what: &str) -> io::Error {
+    match calls % 4 {
+        0 => io::Error::new(kind, format!("injected {} fault", what)),
+        1 => io::Error::from(kind),
+        2 => {
+            let j = ((calls / 4) % 4) as usize;
+            let ch = if (calls / 16) % 2 == 0 { "\u{dc}" } else { "\u{20ac}" };
+            io::Error::new(kind, format!("{}{}", "a".repeat(j), ch.repeat(300)))
+        }
+        _ => io::Error::new(kind, format!("injected {} fault {}", what, "x".repeat(1000))),
+    }
+}
+
 pub struct FragReader<'a> {
     /// deliver the fault once and then carry on normally (a transient failure), instead of failing every
     /// later call as well; ErrorKind::Interrupted is always transient
@@ -79,7 +95,7 @@ impl<'a> Read for FragReader<'a> {
             if self.pos >= self.fail_at && (!self.delivered_fault || (kind != ErrorKind::Interrupted && !self.transient)) {
                 self.delivered_fault = true;
                 // both shapes of io::Error: with a payload and "simple" (kind only, no message, no OS code)
-                return Err(if self.calls % 2 == 0 { io::Error::new(kind, "injected read fault") } else { io::Error::from(kind) });
+                return Err(injected(kind, self.calls, "read"));
             }
         }
         let mut n = buf.len().min(self.data.len() - self.pos);
@@ -123,10 +139,11 @@ impl FragWriter {
     }
 }
 
-impl Write for FragWriter {
-    fn write(&mut self, buf: &[u8]) -> io::Result<usize> {
+impl FragWriter {
+    /// how many of `avail` offered bytes this call accepts (or the injected fault)
+    fn accept(&mut self, avail: usize) -> io::Result<usize> {
         self.calls += 1;
-        if buf.is_empty() {
+        if avail == 0 {
             return Ok(0);
         }
         if self.fault != Fault::None && self.accepted.len() >= self.fail_at {
@@ -134,7 +151,7 @@ impl Write for FragWriter {
                 Fault::Err(kind) => {
                     if !self.delivered_fault || (kind != ErrorKind::Interrupted && !self.transient) {
                         self.delivered_fault = true;
-                        return Err(if self.calls % 2 == 0 { io::Error::new(kind, "injected write fault") } else { io::Error::from(kind) });
+                        return Err(injected(kind, self.calls, "write"));
                     }
                 }
                 Fault::Zero => {
@@ -146,7 +163,7 @@ impl Write for FragWriter {
                 Fault::None => {}
             }
         }
-        let mut n = buf.len();
+        let mut n = avail;
         n = match self.frag {
             Frag::Whole => n,
             Frag::Const(k) => n.min(k),
@@ -155,7 +172,30 @@ impl Write for FragWriter {
         if self.fault != Fault::None && self.accepted.len() < self.fail_at {
             n = n.min(self.fail_at - self.accepted.len());
         }
+        Ok(n)
+    }
+}
+
+impl Write for FragWriter {
+    fn write(&mut self, buf: &[u8]) -> io::Result<usize> {
+        let n = self.accept(buf.len())?;
         self.accepted.extend_from_slice(&buf[..n]);
+        Ok(n)
+    }
+    /// a sink with gather writes of its own (as pipes, sockets and files have): a partial count may end in
+    /// the middle of any of the slices
+    fn write_vectored(&mut self, bufs: &[io::IoSlice<'_>]) -> io::Result<usize> {
+        let total: usize = bufs.iter().map(|b| b.len()).sum();
+        let n = self.accept(total)?;
+        let mut left = n;
+        for b in bufs {
+            let l = b.len().min(left);
+            self.accepted.extend_from_slice(&b[..l]);
+            left -= l;
+            if left == 0 {
+                break;
+            }
+        }
         Ok(n)
     }
     fn flush(&mut self) -> io::Result<()> {
